@@ -8,65 +8,93 @@ From LC.Base Require Import Utf8.
 From LC.V2 Require Import Tok TokSim TokInv TokWF.
 
 (* inserting an ignorable notice line at a clean line boundary: all words unchanged, later lines + 1, exactly one Copyright pseudo match on the inserted line *)
-(* statement as proved in V2/TokSim.v (restated through its type) *)
-Theorem C06_notice_insert : ltac:(let t := type of (@notice_insert) in exact t).
+(* statement as proved in V2/TokSim.v (written out; checked against the lemma by exact) *)
+Theorem C06_notice_insert :
+  forall (T : tables) (p : list rune) (l : list N) (q : list rune),
+         clean (state_after T p) ->
+         Forall (fun r : N => r <> 10%N) l ->
+         no_hyphen_end (state_after T (p ++ l)) ->
+         ignorable (stringify (line_words T (state_after T (p ++ l)))) = true ->
+         exists (post : list (word * N)) (mpost : list N),
+           d_toks (tokenize_runes T true (p ++ q)) = emitted_toks T p ++ post /\
+           d_toks (tokenize_runes T true (p ++ l ++ [10%N] ++ q)) =
+           emitted_toks T p ++ map (fun '(w, l0) => (w, (l0 + 1)%N)) post /\
+           d_matches (tokenize_runes T true (p ++ q)) = emitted_matches T p ++ mpost /\
+           d_matches (tokenize_runes T true (p ++ l ++ [10%N] ++ q)) =
+           emitted_matches T p ++ [line (state_after T p)] ++ map (fun l0 : N => (l0 + 1)%N) mpost.
 Proof. exact (@notice_insert). Qed.
-Check C06_notice_insert.
 Print Assumptions C06_notice_insert.
 
 (* a line matching one of the three ignorableTexts expressions yields no tokens and one pseudo match *)
-(* statement as proved in V2/TokSim.v (restated through its type) *)
-Theorem C06_ignorable_line_is_a_match : ltac:(let t := type of (@stringify_line_buf_ignorable) in exact t).
+(* statement as proved in V2/TokSim.v (written out; checked against the lemma by exact) *)
+Theorem C06_ignorable_line_is_a_match :
+  forall (T : tables) (ws : list word),
+         ignorable (stringify ws) = true -> stringify_line_buf T true ws = LRMatch.
 Proof. exact (@stringify_line_buf_ignorable). Qed.
-Check C06_ignorable_line_is_a_match.
 Print Assumptions C06_ignorable_line_is_a_match.
 
 (* a header-like first word (list marker) contributes no token and the rest of the line is unchanged *)
-(* statement as proved in V2/TokWF.v (restated through its type) *)
-Theorem C06_marker_dropped : ltac:(let t := type of (@wf_marker) in exact t).
+(* statement as proved in V2/TokWF.v (written out; checked against the lemma by exact) *)
+Theorem C06_marker_dropped :
+  forall (T : tables) (h : word) (ws : list word),
+         header T h = true ->
+         match ws with
+         | [] => True
+         | w1 :: _ => header T w1 = false
+         end -> clean_line T true (h :: ws) = clean_line T true ws.
 Proof. exact (@wf_marker). Qed.
-Check C06_marker_dropped.
 Print Assumptions C06_marker_dropped.
 
 (* exactly which words ending in "." are markers: list-marker letters (case-insensitively) or digits and dots *)
-(* statement as proved in V2/TokWF.v (restated through its type) *)
-Theorem C06_marker_shapes_dot : ltac:(let t := type of (@wf_header_dot_exact) in exact t).
+(* statement as proved in V2/TokWF.v (written out; checked against the lemma by exact) *)
+Theorem C06_marker_shapes_dot :
+  forall (T : tables) (p : list N),
+         header T (p ++ [46%N]) = is_list_marker T (map (to_lower T) p) || forallb (digit_dot T) p.
 Proof. exact (@wf_header_dot_exact). Qed.
-Check C06_marker_shapes_dot.
 Print Assumptions C06_marker_shapes_dot.
 
 (* exactly which words ending in ")" are markers: digits and dots only *)
-(* statement as proved in V2/TokWF.v (restated through its type) *)
-Theorem C06_marker_shapes_paren : ltac:(let t := type of (@wf_header_paren_exact) in exact t).
+(* statement as proved in V2/TokWF.v (written out; checked against the lemma by exact) *)
+Theorem C06_marker_shapes_paren :
+  forall (T : tables) (p : list N), header T (p ++ [41%N]) = forallb (digit_dot T) p.
 Proof. exact (@wf_header_paren_exact). Qed.
-Check C06_marker_shapes_paren.
 Print Assumptions C06_marker_shapes_paren.
 
 (* KNOWN FINDING: a letter marker followed by ")" such as "a)" is not recognised *)
-(* statement as proved in V2/TokWF.v (restated through its type) *)
-Theorem C06_letter_paren_not_a_marker : ltac:(let t := type of (@wf_header_marker_paren_false) in exact t).
+(* statement as proved in V2/TokWF.v (written out; checked against the lemma by exact) *)
+Theorem C06_letter_paren_not_a_marker :
+  forall (T : tables) (p : list rune),
+         is_list_marker T (map (to_lower T) p) = true ->
+         (exists r : rune, In r p /\ is_digit T r = false /\ r <> 46%N) -> header T (p ++ [41%N]) = false.
 Proof. exact (@wf_header_marker_paren_false). Qed.
-Check C06_letter_paren_not_a_marker.
 Print Assumptions C06_letter_paren_not_a_marker.
 
 (* a word and its listed interchangeable spelling clean to the same token *)
-(* statement as proved in V2/TokWF.v (restated through its type) *)
-Theorem C06_spelling : ltac:(let t := type of (@wf_spelling) in exact t).
+(* statement as proved in V2/TokWF.v (written out; checked against the lemma by exact) *)
+Theorem C06_spelling :
+  forall (T : tables) (p : bool) (k v : list rune),
+         filter (is_letter T) k = k ->
+         filter (is_letter T) v = v ->
+         interchangeable T k = Some v ->
+         interchangeable T v = None ->
+         header T k = false ->
+         header T v = false -> cleanup_token T p k true = v /\ cleanup_token T p v true = v.
 Proof. exact (@wf_spelling). Qed.
-Check C06_spelling.
 Print Assumptions C06_spelling.
 
 (* https and http give the same token *)
-(* statement as proved in V2/TokWF.v (restated through its type) *)
-Theorem C06_https : ltac:(let t := type of (@wf_https) in exact t).
+(* statement as proved in V2/TokWF.v (written out; checked against the lemma by exact) *)
+Theorem C06_https :
+  forall (a : list rune) (b : list N),
+         hd_error b <> Some 115%N -> normalize_token (a ++ HTTPS ++ b) = normalize_token (a ++ HTTP ++ b).
 Proof. exact (@wf_https). Qed.
-Check C06_https.
 Print Assumptions C06_https.
 
 (* normalizeToken rewrites every https to http *)
-(* statement as proved in V2/TokSim.v (restated through its type) *)
-Theorem C06_https_unconditional : ltac:(let t := type of (@normalize_token_https) in exact t).
+(* statement as proved in V2/TokSim.v (written out; checked against the lemma by exact) *)
+Theorem C06_https_unconditional :
+  forall a b : list rune,
+         normalize_token (a ++ HTTPS ++ b) = normalize_token a ++ HTTP ++ normalize_token b.
 Proof. exact (@normalize_token_https). Qed.
-Check C06_https_unconditional.
 Print Assumptions C06_https_unconditional.
 
